@@ -125,3 +125,7 @@ Proof.
       rewrite bytes_eqb_refl, !tree_eqb_refl. cbn [andb app].
       subst ev. destruct (r_payload r); [rewrite tree_eqb_refl|]; reflexivity.
 Qed.
+
+(* a sequence of calls on one instance: the single-call statement, call by call *)
+Lemma spec_c15_seq_sound is : forall k, spec_c15_seq k is (model_pseq is) = [].
+Proof. induction is as [|i is IH]; intros k; simpl; [reflexivity|]. now rewrite spec_c15_sound, IH. Qed.
